@@ -21,8 +21,8 @@ import io
 import itertools
 import re
 import signal
-import traceback
 import warnings
+from time import process_time
 
 from mc import core
 
@@ -173,17 +173,25 @@ def props(cls):
     return p
 
 
+LIGHT = [False]
+
+
 def touch(v):
     """Read what an application reads from a parsed value (lazy conversions live there)."""
     if v is None or isinstance(v, (str, bytes, int, float, bool)):
         return
     if isinstance(v, Accept):
         offers = OFFERS.get(type(v), OFFERS[Accept])
+        if LIGHT[0]:
+            # ramps: thousands of items; one membership test and one negotiation are enough for termination
+            offers[0] in v
+            v.best_match(offers[:2])
+            return
         for o in offers:
             o in v
             v.quality(o)
             v.find(o)
-            v[o]
+        v[offers[0]]
         v.best_match(offers)
         v.best_match(offers[:1], default="d")
         v.best
@@ -255,9 +263,7 @@ def touch(v):
         return
     if isinstance(v, Headers):
         list(v)
-        len(v)
         v.get("Host")
-        v.getlist("Cookie")
         return
     if isinstance(v, tuple):
         for x in v:
@@ -349,12 +355,12 @@ VARS = {
     "HTTP_CONTENT_ENCODING": X_NONE,
     "HTTP_X_UNKNOWN": X_NONE,
 }
-# variables whose value the request object *parses* (depth 3 already in quick); the others are handed out as
-# plain strings or through one of the standalone parsers above (depth 2 in quick, 3 in thorough)
+# variables the request object parses with code of its own (depth 3 on the dependent sites already in quick);
+# the others are handed out as plain strings or go straight into one of the standalone parsers above, which
+# see the same alphabet at depth 3 (request level: depth 2 in quick, 3 in thorough)
 INTERPRETED = {
-    "HTTP_HOST", "CONTENT_TYPE", "CONTENT_LENGTH", "QUERY_STRING", "PATH_INFO", "HTTP_COOKIE",
-    "HTTP_AUTHORIZATION", "HTTP_ACCEPT", "HTTP_ACCEPT_LANGUAGE", "HTTP_CACHE_CONTROL", "HTTP_IF_MATCH",
-    "HTTP_IF_RANGE", "HTTP_RANGE", "HTTP_X_FORWARDED_FOR", "HTTP_TRANSFER_ENCODING", "HTTP_MAX_FORWARDS",
+    "HTTP_HOST", "CONTENT_TYPE", "CONTENT_LENGTH", "QUERY_STRING", "PATH_INFO", "HTTP_TRANSFER_ENCODING",
+    "HTTP_COOKIE", "HTTP_AUTHORIZATION",
 }
 PAIRS = [
     ("CONTENT_TYPE", "CONTENT_LENGTH"),
@@ -437,6 +443,71 @@ def read_site(req, site):
     return v
 
 
+# ------------------------------------------------------------------ which sites can see which variable
+
+class RecEnv(dict):
+    """environ that records which keys the request object looks at (vacuity / discovery)."""
+    seen: set = set()
+
+    def __getitem__(self, k):
+        RecEnv.seen.add(k)
+        return dict.__getitem__(self, k)
+
+    def get(self, k, d=None):
+        RecEnv.seen.add(k)
+        return dict.get(self, k, d)
+
+    def __contains__(self, k):
+        RecEnv.seen.add(k)
+        return dict.__contains__(self, k)
+
+
+_ADDR = re.compile(r" at 0x[0-9a-f]+")
+
+
+def _site_outcome(vars_, site):
+    RecEnv.seen = set()
+    req = make_request(vars_, env_cls=RecEnv)
+    at_init = set(RecEnv.seen)
+    RecEnv.seen = set()
+    try:
+        v = read_site(req, site)
+        out = _ADDR.sub("", repr(v))
+        if isinstance(v, (io.BytesIO,)) or hasattr(v, "read"):
+            out += repr(v.read())
+    except Exception as e:  # noqa: BLE001
+        out = "EXC " + type(e).__name__
+    return out, set(RecEnv.seen), at_init
+
+
+_DEPS = None
+DEP_PROBES = ("", "a", "zz=1;q=0.5,\xff:x", "multipart/form-data; boundary=b", "chunked", "3")
+
+
+def site_deps():
+    """DEPS[var] = sites whose result can depend on var: the site looks the key up in environ (fresh request,
+    so nothing is hidden by caches) or its outcome differs from the baseline for one of the probe values.
+    Used only to *order* the work in the quick tier (depth 3 on dependent sites, depth 2 on all sites);
+    thorough reads every site for every input."""
+    global _DEPS
+    if _DEPS is not None:
+        return _DEPS
+    base = {site: _site_outcome({}, site)[0] for site in SITES}
+    deps = {}
+    for var in VARS:
+        d = set()
+        for probe in DEP_PROBES:
+            for site in SITES:
+                out, seen, _init = _site_outcome({var: probe}, site)
+                if var in seen or out != base[site]:
+                    d.add(site)
+        if var.startswith("HTTP_") or var.startswith("CONTENT_"):
+            d.add("headers[]")
+        deps[var] = [x for x in SITES if x in d]
+    _DEPS = deps
+    return deps
+
+
 # ------------------------------------------------------------------ enumeration
 
 def alphabet(extra):
@@ -447,40 +518,46 @@ def alphabet(extra):
     return out
 
 
-def seqs_from(alpha, first, depth):
-    """All concatenations of 1..depth atoms whose first atom is alpha[first], shortest first."""
+def seqs_from(alpha, first, depth, dmin=1):
+    """All concatenations of dmin..depth atoms whose first atom is alpha[first], shortest first."""
     head = alpha[first]
-    yield head
-    for k in range(1, depth):
+    for k in range(dmin - 1, depth):
         for t in itertools.product(alpha, repeat=k):
             yield head + "".join(t)
 
 
-RAMP_S = ['"', "\\", ";", ",", "=", "*", "%", "'", " ", "a", "[", "\xff", "-", "/", ":", "0", "(", "\xa0"]
-RAMP_N = (64, 512, 4096)
+RAMP_S = ['"', "\\", ";", ",", "=", "*", "%", "'", " ", "[", "\xff", "\xa0"]
+RAMP_X = ["a=", "a;", "a,", "a=b;", "a=b,", 'a="b";', 'a="b",', "a*=b;", "=?", "a:", "/a", "-0,", "0-", "a.", "(a", "a&", "%C3"]
+RAMP_N = (64, 512, 4096)          # thorough; quick uses the first and the last
+
+
+def ramp_sizes(tier):
+    return RAMP_N if tier == "thorough" else (RAMP_N[0], RAMP_N[-1])
 
 
 def ramp_inputs(extra, n):
+    """prefix + pattern * n: every atom and every ordered pair of structural atoms; single characters also at
+    2n (8192 digits cross CPython's int-conversion limit of 4300)."""
     pats = []
     for x in BASE + [e for e in extra if e not in BASE]:
-        pats.append(x)
+        pats.append((x, n))
+        if len(x) == 1 and n == RAMP_N[-1]:
+            pats.append((x, 2 * n))
     for x, y in itertools.product(RAMP_S, repeat=2):
         if x != y:
-            pats.append(x + y)
-    prefixes = [""] + [e for e in extra]
+            pats.append((x + y, n))
+    for x in RAMP_X:
+        pats.append((x, n))
+    prefixes = [""] + list(extra[:3])
     seen = set()
-    for p in pats:
-        if len(p) * n > 8200:
+    for p, k in pats:
+        if len(p) * k > 8200:
             continue
         for pre in prefixes:
-            s = pre + p * n
+            s = pre + p * k
             if s not in seen:
                 seen.add(s)
                 yield s
-            s2 = s + '"'
-            if pre and s2 not in seen:
-                seen.add(s2)
-                yield s2
 
 
 CT_BODY_TYPES = [
@@ -506,49 +583,67 @@ CT_BODIES = [
 ]
 
 
+DEEP_VARS = ("HTTP_HOST", "QUERY_STRING", "PATH_INFO")   # request-only parsing: one level deeper in thorough
+
+
 def units(tier):
     T = tier == "thorough"
+    site_deps()        # computed once in the parent, inherited by the forked workers
     us = [("trivial",)]
+    # the longest units first (the pool hands units out in order)
+    for n in reversed(ramp_sizes(tier)):
+        for var in VARS:
+            us.append(("ramp-env", var, n, "all" if T else "deps"))
+        for name in SINKS:
+            us.append(("ramp-sink", name, n))
     d_sink = 4 if T else 3
     for name, (_f, extra) in SINKS.items():
         for i in range(len(alphabet(extra))):
             us.append(("sink", name, i, d_sink))
     for var, extra in VARS.items():
-        d = 3 if (T or var in INTERPRETED) else 2
         n = len(alphabet(extra))
-        if d == 3:
+        if T:
+            # every site, every input up to depth 3
             for i in range(n):
-                us.append(("env", var, i, d, "default"))
+                us.append(("env", var, (i, i + 1), (1, 3), "default", "all"))
+            if var in DEEP_VARS:
+                for i in range(n):
+                    for j in range(0, n, 8):
+                        us.append(("env4", var, i, (j, min(n, j + 8))))
         else:
+            # every site up to depth 2; the sites that can see the variable at depth 3
             for i in range(0, n, 8):
-                us.append(("envm", var, (i, min(n, i + 8)), d, "default"))
+                us.append(("env", var, (i, min(n, i + 8)), (1, 2), "default", "all"))
+            if var in INTERPRETED:
+                for i in range(n):
+                    us.append(("env", var, (i, i + 1), (3, 3), "default", "deps"))
     for i in range(len(alphabet(X_HOST))):
-        us.append(("env", "HTTP_HOST", i, 3, "trusted_hosts"))
-    dp = 2 if T else 1
+        us.append(("env", "HTTP_HOST", (i, i + 1), (1, 3), "trusted_hosts", "deps"))
     for a, b in PAIRS:
-        alpha_a = alphabet(VARS[a])
-        for i in range(len(alpha_a)):
-            us.append(("pair", a, b, i, dp))
+        for i in range(len(alphabet(VARS[a]))):
+            us.append(("pair", a, b, i, 1, 1))
+            if T:
+                us.append(("pair", a, b, i, 2, 1))
+        if T:
+            for i in range(len(alphabet(VARS[b]))):
+                us.append(("pair", b, a, i, 2, 1))
     for i in range(len(CT_BODY_TYPES)):
         us.append(("ctbody", i))
-    for name in SINKS:
-        for n in RAMP_N:
-            us.append(("ramp-sink", name, n))
-    for var in VARS:
-        for n in RAMP_N:
-            us.append(("ramp-env", var, n))
     return us
 
 
 # ------------------------------------------------------------------ evaluation
 
 def tb_funcs(e):
+    """module.function of the innermost frames outside the harness (no source lookup: this is hot for Host)."""
     out = []
-    for fs in traceback.extract_tb(e.__traceback__):
-        fn = fs.filename.replace("\\", "/")
-        if "/checks/" in fn or "/mc/" in fn:
-            continue
-        out.append(fn.rsplit("/", 1)[-1][:-3] + "." + fs.name)
+    tb = e.__traceback__
+    while tb is not None:
+        co = tb.tb_frame.f_code
+        fn = co.co_filename
+        if "/checks/" not in fn and "/mc/" not in fn:
+            out.append(fn.rsplit("/", 1)[-1][:-3] + "." + co.co_name)
+        tb = tb.tb_next
     return out[-8:]
 
 
@@ -560,15 +655,27 @@ class Ctx:
         self.n = 0
         self.outcomes = set()
         self.exec = 0
+        self.deep = 0
+        self.timeouts = {}      # site -> budget breaches in this unit; after MAX_TIMEOUTS the site is skipped
+        self.skipped = 0
 
     def flush(self):
+        self.R.count("inputs_of_4_atoms", self.deep)
+        if self.skipped:
+            self.R.count("calls_skipped_after_repeated_budget_breach", self.skipped)
         self.R.ev(self.n)
         self.R.count("executions", self.exec)
         for o in self.outcomes:
             self.R.outcome(o)
 
 
+MAX_TIMEOUTS = 2
+
+
 def eval_sink(ctx, name, f, v, family="sink"):
+    if ctx.timeouts.get(name, 0) >= MAX_TIMEOUTS:
+        ctx.skipped += 1        # already reported twice in this unit; each further breach would cost 5 s of CPU
+        return
     ctx.n += 1
     _SLOT[0] = [name]
     try:
@@ -578,6 +685,7 @@ def eval_sink(ctx, name, f, v, family="sink"):
         ctx.outcomes.add((name, "http", type(e).__name__))
     except BudgetExceeded:
         _SLOT[0] = None
+        ctx.timeouts[name] = ctx.timeouts.get(name, 0) + 1
         ctx.R.violation(f"sink:{name}:non-termination",
                         {"kind": "sink", "site": name, "input": v, "exc": "BudgetExceeded", "tb": [], "family": family})
     except Exception as e:  # noqa: BLE001 - this is the property
@@ -611,6 +719,9 @@ def eval_request(ctx, vars_, body=BODY, config="default", family="env", sites=SI
         return
     ctx.exec += 1
     for site in sites:
+        if ctx.timeouts.get(site, 0) >= MAX_TIMEOUTS:
+            ctx.skipped += 1
+            continue
         ctx.n += 1
         _SLOT[0] = [site]
         try:
@@ -619,6 +730,7 @@ def eval_request(ctx, vars_, body=BODY, config="default", family="env", sites=SI
             ctx.outcomes.add((site, "http", type(e).__name__))
         except BudgetExceeded:
             _SLOT[0] = None
+            ctx.timeouts[site] = ctx.timeouts.get(site, 0) + 1
             ctx.R.violation(f"env:{label}.{site}:non-termination",
                             {"kind": "env", "vars": dict(vars_), "body": body, "config": config, "site": site,
                              "exc": "BudgetExceeded", "tb": [], "family": family})
@@ -637,23 +749,6 @@ _NONALNUM = re.compile(r"[^A-Za-z0-9]")
 def note_input(R, fam, v, i):
     if _NONALNUM.search(v):
         R.nontrivial((fam, v))
-
-
-class RecEnv(dict):
-    """environ that records which keys the request object looks at (vacuity / discovery)."""
-    seen: set = set()
-
-    def __getitem__(self, k):
-        RecEnv.seen.add(k)
-        return dict.__getitem__(self, k)
-
-    def get(self, k, d=None):
-        RecEnv.seen.add(k)
-        return dict.get(self, k, d)
-
-    def __contains__(self, k):
-        RecEnv.seen.add(k)
-        return dict.__contains__(self, k)
 
 
 def run_unit(unit, R, tier):
@@ -689,8 +784,10 @@ def _run(unit, kind, R, ctx, tier):
         missing = client - set(VARS)
         if missing:
             raise core.Broken(f"request object reads client variables the check does not enumerate: {sorted(missing)}")
-        for k in client:
-            R.use("var-read:" + k)
+        deps = site_deps()
+        for var in VARS:
+            if set(deps[var]) - {"headers[]"}:
+                R.use("var-read:" + var)
         for a in ATTRS:
             R.use("attr:" + a)
         R.count("request_attributes", len(ATTRS))
@@ -701,34 +798,50 @@ def _run(unit, kind, R, ctx, tier):
         f, extra = SINKS[name]
         alpha = alphabet(extra)
         R.use("sink:" + name)
-        for i, v in enumerate(seqs_from(alpha, first, depth)):
-            eval_sink(ctx, name, f, v)
-            note_input(R, name, v, i)
+        for k in range(1, depth + 1):
+            for v in seqs_from(alpha, first, k, k):
+                eval_sink(ctx, name, f, v)
+                if k <= 3:
+                    note_input(R, name, v, 0)      # distinct set kept for <= 3 atoms only (memory)
+                else:
+                    ctx.deep += 1
         R.use("atom:" + repr(alpha[first]))
         if first % 13 == 0:
             R.sample({"site": name, "input": alpha[first] + alpha[-1] + alpha[8]})
         return
-    if kind in ("env", "envm"):
-        _k, var, first, depth, config = unit
+    if kind == "env":
+        _k, var, (f0, f1), (dmin, dmax), config, which = unit
         alpha = alphabet(VARS[var])
-        R.use("var:" + var, "config:" + config)
-        firsts = [first] if kind == "env" else range(*first)
-        for fi in firsts:
-            for i, v in enumerate(seqs_from(alpha, fi, depth)):
-                eval_request(ctx, {var: v}, config=config)
+        sites = SITES if which == "all" else site_deps()[var]
+        R.use("var:" + var, "config:" + config, "sites:" + which)
+        for fi in range(f0, f1):
+            for i, v in enumerate(seqs_from(alpha, fi, dmax, dmin)):
+                eval_request(ctx, {var: v}, config=config, sites=sites)
                 note_input(R, var, v, i)
-        if kind == "env" and first % 17 == 0:
-            R.sample({"variable": var, "value": alpha[first] + alpha[6] + alpha[-1], "sites_read": len(SITES)})
+        if f0 % 17 == 0:
+            R.sample({"variable": var, "value": alpha[f0] + alpha[6] + alpha[-1], "sites_read": len(sites)})
+        return
+    if kind == "env4":
+        _k, var, first, (s0, s1) = unit
+        alpha = alphabet(VARS[var])
+        sites = site_deps()[var]
+        R.use("env4:" + var)
+        for second in range(s0, s1):
+            head = alpha[first] + alpha[second]
+            for t in itertools.product(alpha, repeat=2):
+                v = head + t[0] + t[1]
+                eval_request(ctx, {var: v}, sites=sites)
+                ctx.deep += 1
         return
     if kind == "pair":
-        _k, a, b, first, depth = unit
-        R.use("pair:" + a + "+" + b)
+        _k, a, b, first, da, db = unit
+        R.use("pair:" + "+".join(sorted((a, b))))
         alpha_a = alphabet(VARS[a])
         alpha_b = alphabet(VARS[b])
         bs = [""]
-        for k in range(1, depth + 1):
+        for k in range(1, db + 1):
             bs.extend("".join(t) for t in itertools.product(alpha_b, repeat=k))
-        for va in seqs_from(alpha_a, first, depth):
+        for va in seqs_from(alpha_a, first, da, da):
             for vb in bs:
                 eval_request(ctx, {a: va, b: vb}, family="pair")
             note_input(R, a + "+" + b, va, 0)
@@ -747,16 +860,33 @@ def _run(unit, kind, R, ctx, tier):
         _k, name, n = unit
         f, extra = SINKS[name]
         R.use("ramp-sink")
-        for v in ramp_inputs(extra, n):
-            eval_sink(ctx, name, f, v, family="ramp")
-            R.count("ramp_inputs")
+        LIGHT[0] = True
+        try:
+            for v in ramp_inputs(extra, n):
+                t0 = process_time()
+                eval_sink(ctx, name, f, v, family="ramp")
+                if process_time() - t0 > 1.0:
+                    R.count("ramp_calls_over_1s_cpu")
+                    R.note(f"slow: {name} {process_time() - t0:.1f}s on {v[:30]!r}... ({len(v)} chars)")
+                R.count("ramp_inputs")
+        finally:
+            LIGHT[0] = False
         return
     if kind == "ramp-env":
-        _k, var, n = unit
+        _k, var, n, which = unit
         R.use("ramp-env")
-        for v in ramp_inputs(VARS[var], n):
-            eval_request(ctx, {var: v}, family="ramp")
-            R.count("ramp_inputs")
+        sites = SITES if which == "all" else site_deps()[var]
+        LIGHT[0] = True
+        try:
+            for v in ramp_inputs(VARS[var], n):
+                t0 = process_time()
+                eval_request(ctx, {var: v}, family="ramp", sites=sites)
+                if process_time() - t0 > 1.0:
+                    R.count("ramp_calls_over_1s_cpu")
+                    R.note(f"slow: {var} {process_time() - t0:.1f}s on {v[:30]!r}... ({len(v)} chars)")
+                R.count("ramp_inputs")
+        finally:
+            LIGHT[0] = False
         return
     raise core.Broken(f"unknown unit {unit!r}")
 
@@ -770,7 +900,8 @@ def finalize(R, tier):
         if max(map(ord, a)) > 255:
             raise core.Broken(f"alphabet atom {a!r} is not latin-1")
     need = {"sink:" + n for n in SINKS} | {"var:" + v for v in VARS} | {"config:trusted_hosts", "ctbody", "ramp-sink", "ramp-env"}
-    need |= {"pair:" + a + "+" + b for a, b in PAIRS}
+    need |= {"pair:" + "+".join(sorted(p)) for p in PAIRS}
+    need |= {"sites:all", "sites:deps"}
     need |= {"atom:" + repr(a) for a in BASE}
     missing = need - R.used
     if missing:
@@ -818,6 +949,14 @@ def _replay_call(fn):
 
 
 def replay(rec):
+    LIGHT[0] = rec.get("family") == "ramp"
+    try:
+        return _replay(rec)
+    finally:
+        LIGHT[0] = False
+
+
+def _replay(rec):
     if rec.get("kind") == "sink":
         f = SINKS[rec["site"]][0]
         v = rec["input"]
@@ -897,9 +1036,26 @@ def _f_cookie(rec):
             and rec["tb"][-1:] == ["http.parse_cookie"])
 
 
+def _f_idna(rec):
+    return (rec["kind"] == "env" and rec["exc"] == "UnicodeError"
+            and rec["site"] in ("url", "base_url", "root_url", "host_url", "url_root")
+            and "HTTP_HOST" in rec["vars"] and "xn--" in rec["vars"]["HTTP_HOST"].lower()
+            and any(t == "urls._decode_idna" for t in rec["tb"]))
+
+
+def _f_trusted(rec):
+    return (rec["kind"] == "env" and rec["exc"] == "UnicodeError" and rec.get("config") == "trusted_hosts"
+            and "HTTP_HOST" in rec["vars"]
+            and rec["site"] in ("host", "url", "base_url", "root_url", "host_url", "url_root")
+            and "utils.host_is_trusted" in rec["tb"]
+            and all(t.startswith("idna.") for t in rec["tb"][list(rec["tb"]).index("utils.host_is_trusted") + 1:]))
+
+
 FINDINGS = {
+    "C07-trusted-hosts-idna-unicodeerror": _f_trusted,
     "C07-authorization-basic-non-ascii": _f_auth,
     "C07-query-string-invalid-utf8": _f_query,
     "C07-host-invalid-netloc-url": _f_host,
+    "C07-host-idna-label-unicodeerror": _f_idna,
     "C07-http-parse-cookie-invalid-utf8": _f_cookie,
 }
